@@ -10,6 +10,7 @@ CONSTANTS
   Dev_IgnoreSubtypeFlag = FALSE
   Dev_DeleteLoop = FALSE
   Emit = TRUE
+  Phase = 0
 INIT Init
 NEXT NextWhole
 INVARIANT InvContract
